@@ -509,9 +509,11 @@ impl<'p> Interp<'p> {
         }
         self.depth += 1;
         self.active_defs.push(def as *const FnDef);
-        let saved_out = std::mem::take(&mut self.outstanding);
+        // the caller's outstanding (deferred) reads stay visible: a write to one of those locations inside
+        // the callee makes the case order-ambiguous
+        let out_mark = self.outstanding.len();
         let r = self.exec_block(&def.body, &mut frame);
-        self.outstanding = saved_out;
+        self.outstanding.truncate(out_mark);
         self.active_defs.pop();
         self.depth -= 1;
         self.activation_live[my_act as usize] = false;
